@@ -50,6 +50,8 @@ static void inner_env(uint64_t m, double theta, Out& o) {
     o.E(db(binomial_bounds::compute_approx_binomial_lower_bound(m, theta, sd)));
     o.E(db(binomial_bounds::compute_approx_binomial_upper_bound(m, theta, sd)));
   }
+  // the only libm values of the exact binomial tails (special_n_star / special_n_prime_f): pow(p, n) and pow(p, n + 1)
+  o.E(db(std::pow(theta, m))); o.E(db(std::pow(theta, m + 1)));
 }
 
 // theta and tuple sketches: R = n estmode est (lb ub)x3 0 ; E = [n theta64 empty m]? inner x6
@@ -61,7 +63,7 @@ static void emit_sketch(const S& s, uint32_t m, bool with_state, LB lbf, UB ubf,
   const double est = s.get_estimate();
   if (with_state) { o.E(n); o.E((I)s.get_theta64()); o.E(s.is_empty() ? 1 : 0); o.E(m); }
   if (s.is_estimation_mode()) inner_env(std::min(m, n), s.get_theta(), o);
-  else for (int i = 0; i < 6; ++i) o.E(0);
+  else for (int i = 0; i < 8; ++i) o.E(0);
   o.R(n); o.R(s.is_estimation_mode() ? 1 : 0); o.R(db(est));
   for (uint8_t sd = 1; sd <= 3; ++sd) { o.R(db(lb[sd])); o.R(db(ub[sd])); }
   o.R(0);
@@ -96,10 +98,13 @@ static void hll_emit(const hll_sketch& s, Out& o) {
     const uint32_t cnt = cl->getCouponCount();
     o.E(cl->isOutOfOrderFlag() ? 1 : 0); o.E(cnt); o.E(0); o.E(0);
     o.E(db(est)); o.E(db(CubicInterpolation<A>::usingXAndYTables(cnt)));
+    o.E(0); o.E(0); o.E(0); o.E(0);
   } else {
     const HllArray<A>* h = static_cast<const HllArray<A>*>(s.sketch_impl);
     o.E(h->isOutOfOrderFlag() ? 1 : 0); o.E(0); o.E(h->getCurMin()); o.E(h->getNumAtCurMin());
     o.E(db(est)); o.E(0);
+    // composite estimator: kxq registers, the bitmap estimate (goes through log) and the value the model must reproduce
+    o.E(db(h->getKxQ0())); o.E(db(h->getKxQ1())); o.E(db(h->getHllBitMapEstimate())); o.E(db(s.get_composite_estimate()));
   }
   for (uint8_t sd = 1; sd <= 3; ++sd) { o.R(db(lb[sd])); o.R(db(ub[sd])); }
   o.R(db(est)); o.R(0);
@@ -217,6 +222,17 @@ static void handler(const Line& t, Out& o) {
       HllArray<A>* h = static_cast<HllArray<A>*>(s.sketch_impl);
       if (t.at(4) != 255) { h->curMin_ = (uint8_t)t.at(4); h->numAtCurMin_ = (uint32_t)t.at(5); h->hipAccum_ = vh::bitsd(t.at(7)); }
       h->oooFlag_ = t.at(6) != 0;
+      hll_emit(s, o);
+    } else if (src == 3) { // 6 3 lgk type curMin numAtCurMin kxq0bits kxq1bits [tag] : out-of-order HllArray with overwritten kxq registers
+      const uint8_t lgk = (uint8_t)t.at(2);
+      hll_sketch s(lgk, ty_of(t.at(3)));
+      uint64_t i = 0;
+      while (s.get_current_mode() != HLL && i < (1u << 24)) s.update(key(77, i++));
+      if (s.get_current_mode() != HLL) throw std::logic_error("not in HLL mode");
+      HllArray<A>* h = static_cast<HllArray<A>*>(s.sketch_impl);
+      h->curMin_ = (uint8_t)t.at(4); h->numAtCurMin_ = (uint32_t)t.at(5);
+      h->kxq0_ = vh::bitsd(t.at(6)); h->kxq1_ = vh::bitsd(t.at(7));
+      h->oooFlag_ = true;
       hll_emit(s, o);
     } else throw std::invalid_argument("src");
     break; }
